@@ -223,6 +223,9 @@ func (g *gen) op(depth int, allowPub bool) Op {
 			if o.UseCtx && depth > 0 {
 				o.Inherit = r.IntN(2) == 0
 			}
+			if o.UseCtx && !o.PreCancelled && !o.Deadline && r.IntN(6) == 0 {
+				o.Detached = true
+			}
 			return o
 		case x < 74:
 			ctx := r.IntN(3) == 0
@@ -254,7 +257,7 @@ func (e *Engine) logOp(op *Op) {
 		k += fmt.Sprintf(":c%v,o%v,a%v,s%v,f%d,p%d,x%d,r%v", s.Ctx, s.Once, s.Async, s.Seq, s.Filter, s.PanicKind, s.CancelAt, s.Replay)
 	}
 	if op.K == Pub {
-		k += fmt.Sprintf(":u%v,pc%v,d%v", op.UseCtx, op.PreCancelled, op.Deadline)
+		k += fmt.Sprintf(":u%v,pc%v,d%v,t%v", op.UseCtx, op.PreCancelled, op.Deadline, op.Detached)
 	}
 	if e.execLog[k] < 3 {
 		e.execLog[k]++
